@@ -15,13 +15,13 @@ RULE = ('(i) algebra: every expression tree of depth <= 2 over 10 atoms (flags, 
         'activity) x 1-2 waiters: a wait returns only while its expression is true and no waiter is left waiting at the end of '
         'a time step in which its expression holds; non-trivial = the waiter had to wait and some atom changed')
 ASSUMPTIONS = [
-    'atoms: flags A,B; X>=1, X==0, X>=Y (two tracked values); task.done; time>=1, time<2, time==1 (not invertible)',
+    'atoms: flags A,B; X>=1, X==0, X>=Y (two tracked values); task.done; time>=1, time<2, time==1 (not invertible); resources level r >= {a: 1}',
     'trees of depth <= 2 in both nesting shapes op(sub, atom) and op(atom, sub)',
     'the independent evaluator (ev) is 15 lines of plain boolean logic',
 ]
 
 ATOMS = [['F', 'A'], ['F', 'B'], ['T', 'X', '>=', 1], ['T', 'X', '==', 0], ['TT', 'X', '>=', 'Y'], ['DONE', 't'],
-         ['GE', 1], ['LT', 2], ['EQ', 1]]
+         ['GE', 1], ['LT', 2], ['EQ', 1], ['R', 'r', '>=', {'a': 1}]]
 INVERTIBLE = [a for a in ATOMS if a[0] != 'EQ']
 
 
@@ -33,6 +33,8 @@ def ev(e, v):
         return {'>=': v[e[1]] >= e[3], '==': v[e[1]] == e[3]}[e[2]]
     if k == 'TT':
         return v[e[1]] >= v[e[3]]
+    if k == 'R':
+        return all(v[e[1]][n] >= a for n, a in e[3].items())
     if k == 'DONE':
         return bool(v['done:' + e[1]])
     if k == 'GE':
@@ -80,14 +82,16 @@ def trees(depth2):
 # ---- (i) algebra, evaluated inside a real simulation ----------------------------------------------
 def algebra_case(case):
     """one valuation of the atoms; all trees are compared with the evaluator at 3 clock values"""
-    A, B, X, Y, done = case['val']
+    A, B, X, Y, done = case['val'][:5]
+    R = case['val'][5] if len(case['val']) > 5 else 0
     msgs = []
     count = [0]
     from ..dsl import Interp
 
     async def main():
         ctx = CURRENT[-1]
-        interp = Interp(ctx, {'start': 0, 'objs': {'A': 'Flag', 'B': 'Flag', 'X': ['Tracked', X], 'Y': ['Tracked', Y]}})
+        interp = Interp(ctx, {'start': 0, 'objs': {'A': 'Flag', 'B': 'Flag', 'X': ['Tracked', X], 'Y': ['Tracked', Y],
+                                                  'r': ['Resources', {'a': R}]}})
         async with Scope() as scope:
             async def payload():
                 await (time + 5)
@@ -101,7 +105,7 @@ def algebra_case(case):
             for now in (0, 1, 2):
                 if time.now < now:
                     await (time == now)
-                v = {'A': A, 'B': B, 'X': X, 'Y': Y, 'done:t': done, 'now': time.now, 'start': 0}
+                v = {'A': A, 'B': B, 'X': X, 'Y': Y, 'done:t': done, 'now': time.now, 'start': 0, 'r': {'a': R}}
                 for tree in case['trees']:
                     want = ev(tree, v)
                     c = interp.cond(tree)
@@ -139,8 +143,9 @@ ACTIONS = {
     'A+': [['SET', 'A', True]], 'A-': [['SET', 'A', False]], 'B+': [['SET', 'B', True]], 'B-': [['SET', 'B', False]],
     'X+': [['TADD', 'X', 1]], 'X-': [['TADD', 'X', -1]], 'Y+': [['TADD', 'Y', 1]], 'Y-': [['TADD', 'Y', -1]],
     'T!': [['CANCEL', 't', 'c']],
+    'R+': [['INC', 'r', {'a': 1}]], 'R-': [['TRY', [['DEC', 'r', {'a': 1}]]]],
 }
-REVERT = {'A+': 'A-', 'B+': 'B-', 'X+': 'X-', 'Y-': 'Y+', 'A-': 'A+', 'X-': 'X+'}
+REVERT = {'A+': 'A-', 'B+': 'B-', 'X+': 'X-', 'Y-': 'Y+', 'A-': 'A+', 'X-': 'X+', 'R+': 'R-'}
 
 
 def helper(steps):
@@ -153,9 +158,15 @@ def helper(steps):
     return s
 
 
-def dyn_program(tree, hist, second, init, nwait):
-    objs = {'A': 'Flag', 'B': 'Flag', 'X': ['Tracked', init[0]], 'Y': ['Tracked', init[1]]}
+def dyn_program(tree, hist, second, init, nwait, task_last=False):
+    objs = {'A': 'Flag', 'B': 'Flag', 'X': ['Tracked', init[0]], 'Y': ['Tracked', init[1]], 'r': ['Resources', {'a': 0}]}
     kids = [['DO', 't', [['D', 5]]]]
+    if task_last:
+        # waiters subscribe and the helper acts before the watched task had its first turn
+        order = [['DO', 'w1', [['WAIT', tree], ['PROBE', 'now']], {'volatile': True}]]
+        hs = [['DO', 'h1', helper(hist)]]
+        return {'objs': objs, '_nops': 30, '_tree': tree,
+                'roots': [['root', [['SCOPE', 's', order + hs + kids + [['D', 3]]], ['PROBE', 'now']]]]}
     order = [['DO', 'w1', [['WAIT', tree], ['PROBE', 'now']], {'volatile': True}]]
     if nwait == 2:
         order.append(['DO', 'w2', [['INSTANT'], ['WAIT', tree], ['PROBE', 'now']], {'volatile': True}])
@@ -168,7 +179,7 @@ def dyn_program(tree, hist, second, init, nwait):
 
 
 def histories(maxlen):
-    acts = ['A+', 'B+', 'X+', 'Y-', 'T!', 'A-', 'X-']
+    acts = ['A+', 'B+', 'X+', 'Y-', 'T!', 'A-', 'X-', 'R+']
     out = [[]]
     single = [(t, a) for t in (0, 1, 2) for a in acts]
     out += [[s] for s in single]
@@ -189,11 +200,11 @@ def atoms_of(tree):
         for x in tree[1:]:
             r |= atoms_of(x)
         return r
-    return {tree[1] if tree[0] in ('F', 'T', 'TT', 'DONE') else 'time'} | ({tree[3]} if tree[0] == 'TT' else set())
+    return {tree[1] if tree[0] in ('F', 'T', 'TT', 'DONE', 'R') else 'time'} | ({tree[3]} if tree[0] == 'TT' else set())
 
 
 def touches(action):
-    return {'A+': 'A', 'A-': 'A', 'B+': 'B', 'B-': 'B', 'X+': 'X', 'X-': 'X', 'Y+': 'Y', 'Y-': 'Y', 'T!': 't'}[action]
+    return {'A+': 'A', 'A-': 'A', 'B+': 'B', 'B-': 'B', 'X+': 'X', 'X-': 'X', 'Y+': 'Y', 'Y-': 'Y', 'T!': 't', 'R+': 'r', 'R-': 'r'}[action]
 
 
 def BOUNDS(tier):
@@ -205,7 +216,7 @@ def cases(tier):
     out = []
     all_trees = trees(True)
     # (i) algebra: one case per valuation, trees split in chunks
-    vals = list(itertools.product((False, True), (False, True), (0, 1), (0, 1), (False, True)))
+    vals = list(itertools.product((False, True), (False, True), (0, 1), (0, 1), (False, True), (0, 2)))
     chunk = 400
     for v in vals:
         for i in range(0, len(all_trees), chunk):
@@ -228,6 +239,26 @@ def cases(tier):
                 t_last, a_last = h[-1]
                 if a_last in REVERT:
                     out.append({'kind': 'dyn', 'prog': dyn_program(tree, h, [(t_last, REVERT[a_last])], (0, 0), 1)})
+    # the watched task is cancelled before its first turn while a waiter is already subscribed to its completion
+    for tree in [t for t in dyn_trees if 't' in atoms_of(t)]:
+        out.append({'kind': 'dyn', 'prog': dyn_program(tree, [(0, 'T!')], None, (0, 0), 1, task_last=True)})
+    # depth 3, alternating connectives: the decisive change happens in the innermost leaves
+    leaves = [['F', 'A'], ['F', 'B'], ['T', 'X', '>=', 1], ['TT', 'X', '>=', 'Y'], ['R', 'r', '>=', {'a': 1}]]
+    for a, b, c, d in itertools.permutations(leaves, 4):
+        for shape in (['AND', a, ['OR', b, ['AND', c, d]]], ['OR', b, ['AND', a, ['OR', c, d]]],
+                      ['AND', ['OR', ['AND', c, d], b], a]):
+            at = atoms_of(shape)
+            acts = [x for x in ('A+', 'B+', 'X+', 'Y-', 'R+') if touches(x) in at]
+            for h in itertools.permutations(acts, 2 if tier == 'quick' else 3):
+                hist3 = [(i, x) for i, x in enumerate(h)]
+                out.append({'kind': 'dyn', 'prog': dyn_program(shape, hist3, None, (0, 1), 1)})
+    # a setter that is cancelled at each of its activation boundaries: the change it made must still wake the waiters
+    simple = [t for t in trees(False) if len(atoms_of(t) & {'X', 'Y', 'r', 'A'}) >= 1][:60]
+    for tree in simple:
+        at = atoms_of(tree)
+        for a in ('X+', 'Y-', 'R+', 'A+'):
+            if touches(a) in at:
+                out.append({'kind': 'dynfault', 'prog': dyn_program(tree, [(1, a)], None, (0, 1), 1)})
     return out
 
 
@@ -270,7 +301,7 @@ def judge_dyn(program, faults=()):
             msgs.append('%r still waiting at the end of time step %r although %r holds (%r)' % (
                 sorted(a for a, _ in waiting), t, tree, snap))
             break
-    msgs += kernel_health(ctx)
+    msgs += kernel_health(ctx, ignore=lambda act, pc, x: isinstance(x, AssertionError) and 'decrease below zero' in str(x))
     if ctx.outcome is not None:
         msgs.append('run() raised %r' % (ctx.outcome,))
     return msgs, waited
@@ -281,6 +312,20 @@ def explore_case(case, tier):
         msgs, n = algebra_case(case)
         return {'execs': 1, 'nontrivial': 1, 'outcomes': {'algebra': 1}, 'counters': {'algebra_evaluations': n},
                 'viol': [{'faults': [], 'msgs': msgs}] if msgs else []}
+    if case['kind'] == 'dynfault':
+        from .. import faults as F
+        bounds = []
+        ctx0 = run_one(case['prog'], (), observe=F.observer(bounds))
+        pts, _ = F.cancel_points(ctx0, bounds, victims=['h1'])
+        n, viol, nt = 0, [], 0
+        for k, v in [(None, None)] + pts:
+            f = [] if k is None else [{'k': k, 'kind': 'cancel', 'victim': v, 'token': 'x'}]
+            msgs, waited = judge_dyn(case['prog'], f)
+            n += 1
+            nt += int(waited)
+            if msgs:
+                viol.append({'faults': f, 'msgs': msgs})
+        return {'execs': n, 'nontrivial': nt, 'outcomes': {'dynfault': n}, 'viol': viol, 'counters': {}}
     msgs, waited = judge_dyn(case['prog'])
     return {'execs': 1, 'nontrivial': int(waited), 'outcomes': {'dyn/' + ('waited' if waited else 'direct'): 1},
             'viol': [{'faults': [], 'msgs': msgs}] if msgs else [], 'counters': {}}
@@ -289,4 +334,4 @@ def explore_case(case, tier):
 def replay(case, faults):
     if case['kind'] == 'algebra':
         return algebra_case(case)[0]
-    return judge_dyn(case['prog'])[0]
+    return judge_dyn(case['prog'], faults or ())[0]
